@@ -807,15 +807,20 @@ class DirectProxyAccessor(WritableAccessor[T_co], PhysicalAccessor[T_co]):
         if index < 0:
             index = max(index + len(elmlist._elements), 0)
         index = min(index, len(elmlist._elements))
+        loader = elmlist._model._loader
         try:
             indexof = elmlist._parent._element.index
             if index > 0:
-                parent_index = indexof(elmlist._elements[index - 1]) + 1
+                anchor = elmlist._elements[index - 1]
+                if anchor.getparent() is None:
+                    # a member stored in its own fragment file is
+                    # represented by a placeholder among the children
+                    anchor = loader._unfollow_href(anchor.get("id", ""))
+                parent_index = indexof(anchor) + 1
             else:
                 parent_index = 0
-        except ValueError:
+        except (KeyError, ValueError):
             parent_index = len(elmlist._parent._element)
-        loader = elmlist._model._loader
         with contextlib.suppress(ValueError):
             # not part of any fragment, e.g. below an element that was
             # removed from the model just before
@@ -1917,15 +1922,20 @@ class RoleTagAccessor(WritableAccessor, PhysicalAccessor):
         if index < 0:
             index = max(index + len(elmlist._elements), 0)
         index = min(index, len(elmlist._elements))
+        loader = elmlist._model._loader
         try:
             indexof = elmlist._parent._element.index
             if index > 0:
-                parent_index = indexof(elmlist._elements[index - 1]) + 1
+                anchor = elmlist._elements[index - 1]
+                if anchor.getparent() is None:
+                    # a member stored in its own fragment file is
+                    # represented by a placeholder among the children
+                    anchor = loader._unfollow_href(anchor.get("id", ""))
+                parent_index = indexof(anchor) + 1
             else:
                 parent_index = 0
-        except ValueError:
+        except (KeyError, ValueError):
             parent_index = len(elmlist._parent._element)
-        loader = elmlist._model._loader
         with contextlib.suppress(ValueError):
             # not part of any fragment, e.g. below an element that was
             # removed from the model just before
